@@ -26,15 +26,21 @@ fn tagged(count: usize) -> Arithmetic<f64> {
 fn c04_paired_extend_length_mismatch() {
     let a = any_prefix_f64::<3>();
     let b = any_prefix_f64::<3>();
-    let mut p = Paired::<f64>::default();
+    // from an arbitrary earlier state (any number of pairs already accumulated), not only from the empty one: the reported
+    // lengths are those of the two sequences of THIS call
+    let c0: usize = kani::any();
+    kani::assume(c0 <= usize::MAX / 2);
+    let mut p = raw_paired_f64(tagged(c0));
     let r = p.extend(&a, &b);
+    kani::cover!(c0 == 0 && a.len == 3 && b.len == 1, "first longer, fresh state");
+    kani::cover!(c0 == 4 && a.len == 1 && b.len == 3, "second longer, four pairs present");
     kani::cover!(a.len == 3 && b.len == 1, "first longer");
     kani::cover!(a.len == 0 && b.len == 2, "second longer");
     kani::cover!(a.len == b.len && a.len == 3, "equal lengths");
     match r {
         Ok(()) => {
             assert!(a.len == b.len, "C04:paired:extend:accepts-unequal-lengths");
-            assert!(p.sample_count() == a.len, "C04:paired:extend:count");
+            assert!(p.sample_count() == c0 + a.len, "C04:paired:extend:count");
         }
         Err(CIError::DifferentSampleSizes(x, y)) => assert!(a.len != b.len && x == a.len && y == b.len, "C04:paired:extend:different-sizes-payload"),
         Err(_) => assert!(false, "C04:paired:extend:wrong-error-variant"),
